@@ -673,7 +673,8 @@ pub fn build_default_config(conf: &crate::config::Config, request: &DHCPRequest)
                 let mut ret = config::Policy {
                     match_subnet: Some(subnet),
                     apply_address: Some(
-                        (1..size.saturating_sub(2))
+                        /* Everything but the network (first) and broadcast (last) address. */
+                        (1..size.saturating_sub(1))
                             .map(|offset| (u32::from(subnet.network()) + offset).into())
                             // TODO: This removes one IP from the list, it should also remove any
                             // others found on the local machine.  Probably fine for now, but
